@@ -1,10 +1,18 @@
 #!/bin/bash
 # Build the framework from files on disk only (offline). Full .vo build, never -vos/-vok.
-set -e
+# `make -k`: one file that does not compile must not stop the others from being built — every check rebuilds and
+# re-checks its own targets and reports a file that does not compile as a broken proof obligation of its property.
 cd "$(dirname "$0")"
 export PYTHONPATH="${VERIF_REPO:-/repo}:$(pwd)" PYTHONHASHSEED=0 PYTHONDONTWRITEBYTECODE=1
-/venv/bin/python -c "from harness import common; import sys; ok,m=common.regenerate_all(); print(m); sys.exit(0 if ok else 1)"
-/venv/bin/python -c "from harness import common; common.write_coqproject()"
-cd coq
-coq_makefile -f _CoqProject -o Makefile
-timeout 3000 make -j16
+/venv/bin/python -c "from harness import common; import sys; ok,m=common.regenerate_all(); print(m); sys.exit(0 if ok else 1)" || echo "WARNING: a source extractor failed (see above)"
+/venv/bin/python -c "from harness import common; common.write_coqproject()" || exit 2
+cd coq || exit 2
+coq_makefile -f _CoqProject -o Makefile || exit 2
+timeout 3000 make -k -j16 > ../_work_setup.log 2>&1
+rc=$?
+tail -5 ../_work_setup.log
+if [ $rc -ne 0 ]; then
+  echo "WARNING: some Coq files did not compile:"; grep -E "^File |Error" ../_work_setup.log | head -20
+fi
+# the build is usable if the shared models compiled
+test -f Model/Types.vo && test -f Check/Common.vo
